@@ -127,6 +127,15 @@ func init() {
 			if r.chance(1, 2) {
 				vs = append(vs, bulk("COUNT"), bulk(strconv.Itoa(1+r.intn(100))))
 			}
+			if r.chance(1, 5) {
+				// options as clients mistype them: a name without its value, values that are no numbers, huge or negative, unknown names
+				tails := [][]string{{"COUNT"}, {"MATCH"}, {"count"}, {"TYPE"}, {"COUNT", "abc"}, {"COUNT", "-5"}, {"COUNT", "0"}, {"COUNT", "99999999999999999999"},
+					{"COUNT", "1000000"}, {"COUNT", ""}, {"FOO", "bar"}, {"MATCH", "*", "COUNT"}, {"COUNT", "10", "COUNT"}, {"TYPE", "string", "MATCH"}}
+				for _, x := range tails[r.intn(len(tails))] {
+					vs = append(vs, bulk(x))
+				}
+				hist["mistyped options"]++
+			}
 			hist[fmt.Sprintf("hosts=%d", n)]++
 			emit(n, arr(vs...), genNodeReply())
 		}
